@@ -4,7 +4,9 @@ package gram
 
 import (
 	"reflect"
+	"runtime"
 	"sort"
+	"strings"
 
 	"github.com/google/badwolf/bql/grammar"
 	"github.com/google/badwolf/bql/lexer"
@@ -17,8 +19,9 @@ type Elem struct {
 }
 
 type Alt struct {
-	Elems                     []Elem
-	HasStart, HasEnd, HasElem bool
+	Elems                        []Elem
+	HasStart, HasEnd, HasElem    bool
+	StartName, EndName, ElemName string // Go function names of the hooks ("" when absent)
 }
 
 type G struct {
@@ -43,6 +46,7 @@ func FromBQL(g *grammar.Grammar) *G {
 		var alts []Alt
 		for _, c := range cls {
 			a := Alt{HasStart: c.ProcessStart != nil, HasEnd: c.ProcessEnd != nil, HasElem: c.ProcessedElement != nil}
+			a.StartName, a.EndName, a.ElemName = funcName(c.ProcessStart), funcName(c.ProcessEnd), funcName(c.ProcessedElement)
 			for _, e := range c.Elements {
 				isSym := reflect.ValueOf(e).FieldByName("isSymbol").Bool()
 				a.Elems = append(a.Elems, Elem{IsSym: isSym, Sym: string(e.Symbol()), Tok: int(e.Token())})
@@ -291,4 +295,25 @@ func (g *G) postVariants(rest []Elem, min map[string][]int, has map[string]bool)
 		}
 	}
 	return out
+}
+
+// funcName returns the short name of the function that created a hook closure, e.g. "dataAccumulator".
+func funcName(f interface{}) string {
+	v := reflect.ValueOf(f)
+	if !v.IsValid() || v.IsNil() {
+		return ""
+	}
+	n := runtime.FuncForPC(v.Pointer()).Name() // github.com/google/badwolf/bql/semantic.dataAccumulator.func1
+	if i := strings.LastIndex(n, "/"); i >= 0 {
+		n = n[i+1:]
+	}
+	// with inlining the name reads grammar.SemanticBQL.<Exported>Hook.<creator>.func1: keep the creator
+	parts := strings.Split(n, ".")
+	for len(parts) > 0 && (strings.HasPrefix(parts[len(parts)-1], "func") || parts[len(parts)-1] == "") {
+		parts = parts[:len(parts)-1]
+	}
+	if len(parts) > 0 {
+		return parts[len(parts)-1]
+	}
+	return n
 }
